@@ -138,6 +138,7 @@ func runC03(r *Run) {
 	topoSweep(r, "status")
 	c03EOFShapedFailure(r)
 	c03LateFailure(r)
+	c03ViaProxy(r)
 	// a call abandoned with unread envelopes, then the next call: its outcome is its own handler's (c05b.go)
 	if r.Want("backlog") {
 		c05Backlog(r)
